@@ -4,7 +4,7 @@ import itertools
 import numpy as np
 from hypothesis import strategies as st
 
-from ..core import Clause, Violation, require
+from ..core import Clause, Violation, HarnessError, require
 from .. import gens
 from .. import gens_c11 as g
 from ..oracles import elastic as el
@@ -65,6 +65,29 @@ def _get(ec, name, shape):
 def _close(got, exp, tol, what):
     err = float(np.abs(np.asarray(got, dtype=float) - np.asarray(exp, dtype=float)).max())
     require(err <= tol, lambda: '%s: differs by %.3g (tol %.3g)\nexpected\n%r\ngot\n%r' % (what, err, tol, np.asarray(exp), np.asarray(got)))
+
+
+KEY_THR = _key('transform:entry-at-zeroing-threshold')
+
+
+def _at_threshold(C, tol=1e-8, width=1e-5):
+    """some entry of the (expected) result lies within rounding of transform's relative zeroing threshold"""
+    a = np.abs(np.asarray(C, dtype=float))
+    a = a / a.max()
+    return bool(np.any(np.abs(a - tol) <= width * tol))
+
+
+def _transform(ec, axes, expected, what):
+    """ec.transform(axes); the empty AssertionError of the Cijkl setter is the listed finding when an entry of the
+    expected result sits on the zeroing threshold (symmetry-equivalent entries are zeroed independently)"""
+    try:
+        return ec.transform(axes)
+    except AssertionError as e:
+        if str(e) == '' and _at_threshold(expected):
+            raise Violation('%s raised AssertionError() from the Cijkl setter: an entry of the rotated tensor equals '
+                            'tol*max within rounding, so only some of its symmetry-equivalent copies are zeroed' % what,
+                            key=KEY_THR)
+        raise
 
 
 def mine_of(C6):
@@ -193,7 +216,7 @@ def oracle_named(case):
         # my own rotation of atomman's matrix
         _close(el.rotate_voigt(got, R), got, 1e-8 * cmax, '%s tensor under its symmetry rotation %s (my rotation)' % (system, name))
         # atomman's rotation of atomman's matrix
-        tr = ec.transform(_axes(R, case['scale'], case['aslist']))
+        tr = _transform(ec, _axes(R, case['scale'], case['aslist']), got, 'transform(%s)' % name)
         _close(tr.Cij, got, 1e-7 * cmax, '%s tensor under its symmetry rotation %s (transform)' % (system, name))
     if case['scale'] is not None:
         labels.add('nonunit_axes')
@@ -265,7 +288,7 @@ def oracle_isotropic(case):
         if first is None:
             first = ec
     R = el.rotation_matrix(*case['rot'])
-    _close(first.transform(R).Cij, C6, 1e-7 * cmax, 'isotropic tensor under rotation %r' % (case['rot'],))
+    _close(_transform(first, R, C6, 'transform(%r) of the isotropic tensor' % (case['rot'],)).Cij, C6, 1e-7 * cmax, 'isotropic tensor under rotation %r' % (case['rot'],))
     if deferred is not None:
         raise deferred
     if nu > 0:
@@ -305,21 +328,24 @@ def oracle_rotate(case):
     R1, R2 = el.rotation_matrix(*case['R1']), el.rotation_matrix(*case['R2'])
     exp1 = el.rotate_voigt(C6, R1)
     exp12 = el.rotate_voigt(C6, R2 @ R1)
+    K = el.bond_matrix(R1)                       # second, independent route for my own reference
+    if float(np.abs(K @ C6 @ K.T - exp1).max()) > 1e-11 * float(np.abs(exp1).max()):
+        raise HarnessError('reference rotation: 4-index route and Bond-matrix route disagree')
     big = max(cmax, float(np.abs(exp1).max()), float(np.abs(exp12).max()))
     t1tol, t2tol = 1e-7 * big, 1e-6 * big
     ec = am.ElasticConstants(Cij=_arg(C6, False))
     ax = lambda R: _axes(R, case['scale'], case['aslist'])
     # identity
-    _close(ec.transform(ax(np.eye(3))).Cij, C6, t1tol, 'transform(identity)')
+    _close(_transform(ec, ax(np.eye(3)), C6, 'transform(identity)').Cij, C6, t1tol, 'transform(identity)')
     # against my own tensor rotation
-    t1 = ec.transform(ax(R1))
+    t1 = _transform(ec, ax(R1), exp1, 'transform(R1)')
     got1 = _get(t1, 'Cij', (6, 6))
     _close(got1, exp1, t1tol, 'transform(R1=%r) against my own R R R R C' % (case['R1'],))
     # composition and inverse
-    t12 = t1.transform(ax(R2))
+    t12 = _transform(t1, ax(R2), exp12, 'transform(R2) after transform(R1)')
     _close(t12.Cij, exp12, t2tol, 'transform(R2) after transform(R1) against my own rotation by R2.R1')
-    _close(t12.Cij, ec.transform(ax(R2 @ R1)).Cij, t2tol, 'transform(R2) after transform(R1) against transform(R2.R1)')
-    _close(t1.transform(ax(R1.T)).Cij, C6, t2tol, 'transform(R1^T) after transform(R1)')
+    _close(t12.Cij, _transform(ec, ax(R2 @ R1), exp12, 'transform(R2.R1)').Cij, t2tol, 'transform(R2) after transform(R1) against transform(R2.R1)')
+    _close(_transform(t1, ax(R1.T), C6, 'transform(R1^T) after transform(R1)').Cij, C6, t2tol, 'transform(R1^T) after transform(R1)')
     # strain energy of the co-rotated strain
     e = np.array(case['strain'], dtype=float)
     e_r = R1 @ e @ R1.T
